@@ -13,7 +13,7 @@ from . import c01
 
 ID = "C05"
 ENGINE = "net+sec"
-RUNS = {"quick": 1200, "thorough": 30000}
+RUNS = {"quick": 1200, "thorough": 18000}
 DOUBLE = {"quick": 32, "thorough": 300}
 RULE_TEXT = ("one run = 2-5 secured stations (real GN router, SignService, VerifyService, seeded ECDSA, common root/AA) sending CAM/VAM-profile "
              "SHBs at 1-10 Hz, DENM-profile GBCs and generic-profile messages in virtual time; stations join (links come up) at seeded instants "
